@@ -11,10 +11,11 @@ import PauLieVerif.Model.CmdCompiler
 import PauLieVerif.Model.CmdSecondMoment
 import PauLieVerif.Model.CmdAlgebraNames
 import PauLieVerif.Model.CmdGraphExtra
+import PauLieVerif.Model.CmdCert
 
 open PauLie
 
-def handlers : List (String → Option String) := [CmdPS.handle, CmdGraph.handle, CmdClassify.handle, CmdCollection.handle, CmdOptimise.handle, CmdOtoc.handle, CmdLinear.handle, CmdDecomp.handle, CmdTwoLocal.handle, CmdCompiler.handle, CmdSecondMoment.handle, CmdAlgebraNames.handle, CmdGraphExtra.handle]
+def handlers : List (String → Option String) := [CmdPS.handle, CmdGraph.handle, CmdClassify.handle, CmdCollection.handle, CmdOptimise.handle, CmdOtoc.handle, CmdLinear.handle, CmdDecomp.handle, CmdTwoLocal.handle, CmdCompiler.handle, CmdSecondMoment.handle, CmdAlgebraNames.handle, CmdGraphExtra.handle, CmdCert.handle]
 
 def respond (line : String) : String :=
   match handlers.findSome? (fun h => h line) with
